@@ -247,6 +247,11 @@ theorem lifecycle_state_machine :
     firstStateOp "Service.Serve" = some ("CompareAndSwapInt32", "stateStopped,stateStarting") ∧
     firstStateOp "Service.ListenAndServe" = some ("CompareAndSwapInt32", "stateStopped,stateStarting") ∧
     firstStateOp "Service.Shutdown" = some ("CompareAndSwapInt32", "stateStarted,stateStopping") ∧
+    -- a start that fails before anything runs gives `stopped` back, on both paths
+    Generated.stateOps.contains ("Service.ListenAndServe", "StoreInt32", "stateStopped") = true ∧
+    Generated.stateOps.contains ("Service.serve", "StoreInt32", "stateStopped") = true ∧
+    Generated.stateOps.contains ("Service.serve", "StoreInt32", "stateStarted") = true ∧
+    Generated.stateOps.contains ("Service.Shutdown", "StoreInt32", "stateStopped") = true ∧
     -- the functions that act on a running service look at the state (and only look)
     (["Service.runWith", "Service.Reset", "Service.ResetAll", "Service.TokenEvent", "Service.TokenEventWithID", "Service.TokenReset"].all
       fun fn => firstStateOp fn == some ("LoadInt32", "")) = true := by
